@@ -38,6 +38,11 @@ pub struct Local {
     pub want_sample: bool,
     #[serde(skip)]
     pub replay_mode: bool,
+    /// describe-only mode: the case closure reports what it would run and returns
+    #[serde(skip)]
+    pub describe_only: bool,
+    #[serde(skip)]
+    pub description: Option<(String, Value)>,
 }
 
 static PHASE: Mutex<String> = Mutex::new(String::new());
@@ -106,6 +111,16 @@ impl Local {
         for (k, s) in l.extra_sets {
             self.extra_sets.entry(k).or_default().extend(s);
         }
+    }
+    /// Announce the case before running it: `class` is the structural class used in abort/hang
+    /// signatures. Returns true in describe-only mode (the caller must then return at once).
+    pub fn describe(&mut self, class: &str, v: impl FnOnce() -> Value) -> bool {
+        set_phase(class);
+        if self.describe_only {
+            self.description = Some((class.to_string(), v()));
+            return true;
+        }
+        false
     }
     pub fn sample(&mut self, v: impl FnOnce() -> Value) {
         if self.want_sample {
@@ -182,6 +197,10 @@ pub struct Run {
     pub case_timeout_s: f64,
     pub worker_stack_mb: usize,
     pub base_args: Vec<String>,
+    /// worker prints the description of its (single) case instead of running it
+    pub describe_mode: bool,
+    /// address-space limit for worker subprocesses (KiB), applied with `ulimit -v`
+    pub worker_mem_limit_kb: Option<u64>,
 }
 
 impl Run {
@@ -219,6 +238,8 @@ impl Run {
             case_timeout_s: 20.0,
             worker_stack_mb: 64,
             base_args: vec![],
+            describe_mode: false,
+            worker_mem_limit_kb: None,
         }
     }
     pub fn quick(&self) -> bool {
@@ -357,6 +378,16 @@ impl Run {
     where
         F: Fn(u64, &mut Local) + Sync,
     {
+        if self.describe_mode {
+            let mut local = Local::default();
+            local.cur_family = name.to_string();
+            local.cur_index = start;
+            local.describe_only = true;
+            f(start, &mut local);
+            let (class, v) = local.description.unwrap_or(("".into(), Value::Null));
+            println!("DESC {}", serde_json::to_string(&json!({"class": class, "case": v})).unwrap());
+            std::process::exit(0);
+        }
         let shared: Arc<Mutex<Local>> = Arc::new(Mutex::new(Local::default()));
         let cur_idx = Arc::new(AtomicU64::new(u64::MAX));
         let cur_start_ms = Arc::new(AtomicU64::new(0));
@@ -452,6 +483,7 @@ impl Run {
         let cap = self.wall_cap_s;
         let exe = std::env::current_exe().expect("current_exe");
         let base_args = self.base_args.clone();
+        let mem_limit = self.worker_mem_limit_kb;
         let locals: Vec<Local> = std::thread::scope(|scope| {
             let mut hs = vec![];
             for _ in 0..threads {
@@ -489,14 +521,8 @@ impl Run {
                             queue.lock().unwrap().1 -= 1;
                             break;
                         }
-                        let mut cmd = std::process::Command::new(&exe);
-                        cmd.args(&base_args)
-                            .arg("--worker")
-                            .arg(name)
-                            .arg(bs.to_string())
-                            .arg(be.to_string())
-                            .stdin(std::process::Stdio::null())
-                            .stdout(std::process::Stdio::piped());
+                        let mut cmd = worker_command(&exe, &base_args, name, bs, be, mem_limit, false);
+                        cmd.stdin(std::process::Stdio::null()).stdout(std::process::Stdio::piped());
                         if !trace() {
                             cmd.stderr(std::process::Stdio::null());
                         }
@@ -536,12 +562,27 @@ impl Run {
                                     acc.evaluations += 1;
                                     acc.count("aborts");
                                     let st = format!("{:?}", output.status);
+                                    // ask a fresh worker what this case is (it does not run it)
+                                    let mut dc = worker_command(&exe, &base_args, name, bs, be, mem_limit, true);
+                                    dc.stdin(std::process::Stdio::null()).stdout(std::process::Stdio::piped()).stderr(std::process::Stdio::null());
+                                    let mut class = String::new();
+                                    let mut desc = Value::Null;
+                                    if let Ok(o) = dc.output() {
+                                        for line in String::from_utf8_lossy(&o.stdout).lines() {
+                                            if let Some(rest) = line.strip_prefix("DESC ") {
+                                                if let Ok(v) = serde_json::from_str::<Value>(rest) {
+                                                    class = v["class"].as_str().unwrap_or("").to_string();
+                                                    desc = v["case"].clone();
+                                                }
+                                            }
+                                        }
+                                    }
                                     acc.violations.push(Violation {
-                                        signature: "abort".to_string(),
+                                        signature: format!("abort:{class}"),
                                         family: name.to_string(),
                                         index: bs,
-                                        what: format!("worker process died on this case ({st})"),
-                                        case: json!({"family": name, "index": bs, "status": st}),
+                                        what: format!("the process died on this case ({st}): stack overflow, allocation failure or abort"),
+                                        case: json!({"family": name, "index": bs, "status": st, "class": class, "case": desc}),
                                     });
                                 } else {
                                     let mid = bs + (be - bs) / 2;
@@ -734,6 +775,30 @@ impl Run {
             std::process::exit(1);
         }
         std::process::exit(0);
+    }
+}
+
+fn worker_command(exe: &std::path::Path, base_args: &[String], name: &str, bs: u64, be: u64, mem_limit_kb: Option<u64>, describe: bool) -> std::process::Command {
+    let mut args: Vec<String> = base_args.to_vec();
+    args.push("--worker".into());
+    args.push(name.to_string());
+    args.push(bs.to_string());
+    args.push(be.to_string());
+    if describe {
+        args.push("--describe".into());
+    }
+    match mem_limit_kb {
+        None => {
+            let mut c = std::process::Command::new(exe);
+            c.args(&args);
+            c
+        }
+        Some(kb) => {
+            // sh -c 'ulimit -v KB; exec "$0" "$@"' exe args...
+            let mut c = std::process::Command::new("sh");
+            c.arg("-c").arg(format!("ulimit -v {kb}; exec \"$0\" \"$@\"")).arg(exe).args(&args);
+            c
+        }
     }
 }
 
